@@ -208,6 +208,8 @@ class Builder:
                 o.setdefault("replace", []).append((mm.group(1), mm.group(2)))
             elif p[0] == "external_body_consts":
                 o["external_body_consts"] = p[1].split()
+            elif p[0] == "makepub":
+                o["makepub"] = True
             elif p[0] == "pubfields":
                 o["pubfields"] = True
             elif p[0] == "noderive":
@@ -230,6 +232,7 @@ class Builder:
             self.emit(a + "\n", "unit")
         if o.get("derive"):
             self.emit("#[derive(%s)]\n" % ", ".join(o["derive"]), "unit")
+        self._makepub = bool(o.get("makepub"))
         if kw in ("struct", "enum", "union"):
             self.emit_plain_item(rel, src, m, it, strip_inner_attrs=True, replace=o.get("replace"), pubfields=o.get("pubfields"))
         elif kw in ("const", "static", "type", "use", "mod"):
@@ -254,6 +257,10 @@ class Builder:
     def emit_plain_item(self, rel, src, m, it, strip_inner_attrs=False, replace=None, pubfields=False):
         a, b = it.start, it.end
         edits = []
+        vm = re.match(r"pub\s*\(\s*(?:super|crate|in [^)]*)\s*\)", m[a:b])
+        if getattr(self, "_makepub", False) and vm:
+            edits.append(Edit(a, a + vm.end(), [Seg("pub", "repo", file=rel, line=rs.line_of(src, a))]))
+            self.count("makepub")
         if pubfields and it.body_open is not None:
             # private fields made `pub` so that contracts of pub fns may mention them (visibility only)
             depth = 0
@@ -743,6 +750,11 @@ class Builder:
                 for mm in re.finditer(r"\.\s*try_into\s*\(", m[a:b]):
                     edits.append(Edit(a + mm.start(), a + mm.end(), [Seg(".vx_try_into_passkey(", "repo", fn=qual)]))
                     self.count("R12b")
+            if rule[0] == "R4d":
+                # slice.try_into().unwrap() producing an array -> trusted wrapper whose precondition is the length
+                for mm in re.finditer(r"\.\s*try_into\s*\(\s*\)\s*\.\s*unwrap\s*\(\s*\)", m[a:b]):
+                    edits.append(Edit(a + mm.start(), a + mm.end(), [Seg(".vx_into_arr()", "repo", fn=qual)]))
+                    self.count("R4d")
             if rule[0] == "R4c":
                 # slice.try_into() producing an array -> trusted wrapper method (the blanket TryInto impl has no spec)
                 for mm in re.finditer(r"\.\s*try_into\s*\(", m[a:b]):
